@@ -388,6 +388,7 @@ func genCase(r *rand.Rand, thorough bool, i int) []string {
 		g.add("party %d %s %s", j, id, strings.Join(cs, ","))
 	}
 	g.add("rundkg")
+	g.sig("sigzero") // shows the oracle the label of the zero signature (a party whose aggregated secret is 0 cannot sign validly)
 	self := r.Intn(n)
 	if r.Intn(25) == 0 {
 		g.add("chain -")
@@ -540,7 +541,7 @@ func main() {
 		ID: "C33", Model: "C33", Gen: genAll, Impl: impl, Oracle: oracle, Serial: true,
 		Cases: func(th bool) int {
 			if th {
-				return 1200
+				return 800
 			}
 			return 150
 		},
